@@ -1,9 +1,10 @@
 """C07 — the wrapped primitive is never used concurrently (batching wrappers: f-begin .. result retrieved; plain mutex
 wrappers: run()).  Oracle + exploration + correspondence: vlib/batch.py; models: Batch/Monitor.v, Batch/Mutex.v."""
-from vlib import batch
+from vlib import batch, translate
 
 
 def run(ctx):
+    translate.check_link(ctx, "C06")  # regenerate Gallina from /repo's current mutex_primitives.py; link lemmas coq/link/C06Link.v
     batch.run_property(ctx, "C07")
     batch.run_mutex(ctx)
     batch.check_installed(ctx)
@@ -13,4 +14,6 @@ def run(ctx):
 
 
 def replay(ctx, payload):
+    if translate.is_link_replay(payload) and not payload.get("failing_input"):
+        return translate.replay(ctx, payload, "C06")  # a replay file written for a broken translation tie
     batch.replay_property(ctx, "C07", payload)
